@@ -67,6 +67,11 @@ where
 
           sctl_next.sink_next(x);
 
+          // the stream may have ended while the item was handed on (take(n),
+          // first, an unsubscribe from the callback): no new timer then
+          if !sctl_next.is_subscribed() {
+            return;
+          }
           {
             let sctl = sctl_next.clone();
             let scheduler_ctor = scheduler_ctor.clone();
@@ -83,6 +88,14 @@ where
                   junk_complete!(),
                 ),
             );
+          }
+          // ... and if it ended while the timer was being armed, the finalize
+          // hook has already run: cancel the new timer here
+          if !sctl_next.is_subscribed() {
+            let armed = timer.write().unwrap().take();
+            if let Some(armed) = armed {
+              armed.unsubscribe();
+            }
           }
         },
         move |_, e| {
